@@ -21,6 +21,7 @@ type tr struct {
 	nres      int
 	retTags   [][]tag
 	publishes []bool
+	dead      map[int]bool // allocation sites whose objects may be reachable by other threads
 
 	relevantDefer bool
 	gotoPos       token.Pos
@@ -465,8 +466,33 @@ func (t *tr) assign(x *ast.AssignStmt) {
 			continue
 		}
 		t.write(l)
-		t.store(t.lhsRootTag(l), tg)
+		if carriesRefs(t.typeOf(l), 0) {
+			// storing a number, a string or a boolean publishes nothing
+			t.store(t.lhsRootTag(l), tg)
+			t.storeShared(t.lhsRootTag(l), tg, t.typeOf(l))
+		}
 	}
+}
+
+// carriesRefs: a value of type ty may contain references to other objects.
+func carriesRefs(ty types.Type, depth int) bool {
+	if ty == nil || depth > 6 {
+		return true
+	}
+	switch u := ty.Underlying().(type) {
+	case *types.Basic:
+		return u.Kind() == types.UnsafePointer
+	case *types.Struct:
+		for i := 0; i < u.NumFields(); i++ {
+			if carriesRefs(u.Field(i).Type(), depth+1) {
+				return true
+			}
+		}
+		return false
+	case *types.Array:
+		return carriesRefs(u.Elem(), depth+1)
+	}
+	return true
 }
 
 // lhsRootTag: tag of the object that owns the location designated by l.
@@ -627,6 +653,7 @@ func (t *tr) rangeStmt(x *ast.RangeStmt, label string) {
 				}
 				t.write(kv)
 				t.store(t.lhsRootTag(kv), xt)
+				t.storeShared(t.lhsRootTag(kv), xt, t.typeOf(kv))
 			}
 			t.stmts(x.Body.List)
 		})
